@@ -68,6 +68,20 @@ Theorem C19_producers_never_wait_for_broker : forall sched,
 Proof. exact producers_never_wait. Qed.
 Print Assumptions C19_producers_never_wait_for_broker.
 
+(* ---- every accepted event does reach the broker ---- *)
+(* Without shutdown: under every policy that keeps scheduling whichever of the two loops can move
+   (no further publication, Close not called), from every reachable state, within [measure s]
+   steps everything accepted so far has been handed to the broker and the pipeline is empty. *)
+Theorem C19_eventually_delivered : forall pol sched,
+  fair_bw_policy pol ->
+  let s := run sched init in
+  cp s = CNot ->
+  exists n, (n <= measure s)%nat /\
+            let s' := drive pol n s in
+            pending s' = [] /\ concat (delivered s') = accepted s' /\ accepted s' = accepted s.
+Proof. exact eventually_delivered. Qed.
+Print Assumptions C19_eventually_delivered.
+
 (* ---- flushed on shutdown ---- *)
 (* When Close has returned, every accepted message has been handed to the broker and the
    pipeline is empty — for every schedule, in particular every instant of Close. *)
@@ -157,6 +171,14 @@ Theorem C19_service_steps_decrease_measure : forall l s,
 Proof. exact measure_decreases. Qed.
 Print Assumptions C19_service_steps_decrease_measure.
 
+(* the constants read from writer.go on this run are within what the model assumes: the done
+   signal never blocks (capacity 1), the done branch drains, batch limits are within 1..100 *)
+Theorem C19_translated_constants_fit_model :
+  ew_done_cap = 1 /\ ew_drain_on_done = true /\
+  (forall d, (1 <= pop_max d <= 100)%nat) /\ (1 <= N.to_nat ew_chan_cap)%nat.
+Proof. exact constants_fit_model. Qed.
+Print Assumptions C19_translated_constants_fit_model.
+
 (* ---- the schedules forced by the harness are schedules of the model ---- *)
 Theorem C19_forced_schedules_are_schedules : forall ops,
   coarse_state ops init_settled = run (init_labels ++ coarse_sched ops init_settled) init.
@@ -173,9 +195,9 @@ Example C19_nonvacuous :
   let s := coarse_state ops init_settled in
   cp s = CReturned /\ map (@length msg) (delivered s) = [1; 100; 50]%nat /\
   length (accepted s) = 151%nat /\ NoDup (map id_of (accepted s)) /\
-  fair_policy bwc_policy.
+  fair_policy bwc_policy /\ fair_bw_policy bw_policy.
 Proof.
   cbn zeta. split; [vm_compute; reflexivity|]. split; [vm_compute; reflexivity|].
-  split; [vm_compute; reflexivity|]. split; [|exact bwc_fair].
+  split; [vm_compute; reflexivity|]. split; [|exact (conj bwc_fair bw_fair)].
   apply nodupb_NoDup. vm_compute. reflexivity.
 Qed.
